@@ -1,7 +1,7 @@
 #!/bin/sh
 # offline setup: byte-compile the explorer and build the native LFSR walker
 set -e
-cd /verif
+cd "$(dirname "$(readlink -f "$0")")"
 mkdir -p build evidence violations
 if [ -f native/lfsr_walk.c ]; then gcc -O2 -o build/lfsr_walk native/lfsr_walk.c; fi
 /venv/bin/python -m compileall -q mcx >/dev/null
